@@ -97,6 +97,32 @@ func quietStderr() (restore func()) {
 	return func() { os.Stderr = old; stderrMu.Unlock() }
 }
 
+// QuietStderr is for checks that construct clients themselves: loggers created until restore() write to /dev/null.
+func QuietStderr() (restore func()) { return quietStderr() }
+
+// LogOpts4 / LogOpts6 are the client options of logging configuration cfg (modulo NCfg), as used by NewCfg.
+func LogOpts4(cfg int) []nclient4.ClientOpt {
+	switch cfg % NCfg {
+	case 1, 2:
+		return []nclient4.ClientOpt{nclient4.WithSummaryLogger()}
+	case 3:
+		return []nclient4.ClientOpt{nclient4.WithDebugLogger()}
+	}
+	return nil
+}
+
+func LogOpts6(cfg int) []nclient6.ClientOpt {
+	switch cfg % NCfg {
+	case 1:
+		return []nclient6.ClientOpt{nclient6.WithLogDroppedPackets()}
+	case 2:
+		return []nclient6.ClientOpt{nclient6.WithLogDroppedPackets(), nclient6.WithSummaryLogger()}
+	case 3:
+		return []nclient6.ClientOpt{nclient6.WithLogDroppedPackets(), nclient6.WithDebugLogger()}
+	}
+	return nil
+}
+
 // Tail is the trailer payload of the datagram with the given nonce.
 func Tail(nonce int) []byte {
 	b := make([]byte, 3+nonce%29)
